@@ -340,6 +340,28 @@ func runCase(t *testing.T, pc payloadCase, endpoint string, vosFail [2]int64, ad
 				panic(fmt.Sprintf("the preparatory update was answered %d: %s", rec.Code, rec.Body.String()))
 			}
 		}
+		if initial == 4 {
+			// initial state 4: an update was refused (and rolled back), then the flows were
+			// edited on the gateway itself and loaded with POST /load_flows - the supported
+			// way of changing the configuration without the update endpoints
+			bad, _ := json.Marshal(map[string]any{"flows": map[string]string{"old.yaml": b64("name: [unclosed\n")}})
+			rec := httptest.NewRecorder()
+			rq := httptest.NewRequest(http.MethodPut, "/"+endpoint, bytes.NewReader(bad))
+			if endpoint == "configuration" {
+				rd.VerifHandleConfiguration()(rec, rq)
+			} else {
+				rd.VerifHandleApplyFlows()(rec, rq)
+			}
+			if rec.Code == 200 {
+				panic("the preparatory refused update was accepted")
+			}
+			os.WriteFile(filepath.Join(root, "flows", "ext.yaml"), []byte(respFlow("fext", "h.com/uq/*", 416)), 0o644)
+			rec = httptest.NewRecorder()
+			rd.VerifHandleFlowsLoading()(rec, httptest.NewRequest(http.MethodPost, "/load_flows", nil))
+			if rec.Code != 200 {
+				panic(fmt.Sprintf("POST /load_flows after an edit on disk was answered %d: %s", rec.Code, rec.Body.String()))
+			}
+		}
 		rr.TreeBefore = tree(root)
 		rr.ProbeBefore = probe(rd.VerifStream(), "b")
 		body, _ := json.Marshal(pc.Payload)
@@ -697,16 +719,15 @@ func TestCheck(t *testing.T) {
 		}
 		return
 	}
-	r.Rule = "initial states {one flow; two flows + quota + path params; no gateway-configuration / user-metrics file yet (payloads bringing one); one update already completed} x payloads {" + names(pcs) + "} x endpoints {/configuration, /apply_flows} x {no fault, every single file-system fault point k of the whole handler run (backup, clean-up, save, rollback), every single admin-API call answering 500}; plus schedules: 2 probe transactions x one update (3 payloads x 2 endpoints), all interleavings at sync operations with <= 1 (thorough 2) preemptions; non-trivial = runs in which a fault was injected or the payload is refused; distinct = (payload, endpoint, fault)"
+	r.Rule = "initial states {one flow; two flows + quota + path params; no gateway-configuration / user-metrics file yet (payloads bringing one); one update already completed; one update refused and rolled back, then a flow file edited on disk and loaded with POST /load_flows} x payloads {" + names(pcs) + "} x endpoints {/configuration, /apply_flows} x {no fault, every single file-system fault point k of the whole handler run (backup, clean-up, save, rollback), every single admin-API call answering 500}; plus schedules: 2 probe transactions x one update (3 payloads x 2 endpoints), all interleavings at sync operations with <= 1 (thorough 2) preemptions; non-trivial = runs in which a fault was injected or the payload is refused; distinct = (payload, endpoint, fault)"
 	r.Assume("file-system faults are injected at the os calls of config/gateway_file_system.go (Remove, MkdirAll, Create, Write (partial), Open, Stat); a failed Write leaves half of the content behind",
 		"HAProxy admin API = in-process RoundTripper; virtual time", "probe transactions: "+strings.Join(probes, ", "))
 	if r.Parallel(t, 16) {
 		r.Finish(t)
 		return
 	}
-	schedules(t, r)
 	idx := 0
-	for initial = 0; initial <= 3; initial++ {
+	for initial = 0; initial <= 4; initial++ {
 		for _, pc := range pcs {
 			if initial == 2 {
 				// only payloads that bring one of the two single files are of interest here
@@ -769,5 +790,6 @@ func TestCheck(t *testing.T) {
 		}
 	}
 	initial = 0
+	schedules(t, r)
 	r.Finish(t)
 }
